@@ -167,6 +167,11 @@ class SimLock:
         while self.owner is not None:
             if not blocking:
                 return False
+            if timeout is not None and timeout >= 0 and sim.timed_wait_expires(t):
+                # fault: the holder is slow (or the clock jumps) and a wait with a timeout gives up
+                sim.stats["timed_wait_expired"] = sim.stats.get("timed_wait_expired", 0) + 1
+                t.steps += 1
+                return False
             sim.stats["lock_contention"] += 1
             sim._block(t, self)
         self.owner = t
@@ -288,6 +293,7 @@ class ThreadSim:
             for rec in schedule:
                 self.plan[(rec[0], rec[1])] = rec[2]
         self.policy = None if self.replay else Policy(policy_spec or {"kind": "none"}, rng)
+        self.timed_waits = dict((policy_spec or {}).get("tw") or {})
         self.threads = []
         self.by_ident = {}
         self.back = _thread.allocate_lock()
@@ -366,6 +372,16 @@ class ThreadSim:
         t.go.acquire()
         if self.failure is not None:
             raise SimAbort()
+
+    def timed_wait_expires(self, t):
+        """does a contended wait WITH a timeout give up now?  Decided by the run's configuration and the
+        waiter's own position only (thread, own step count), so that a replayed schedule repeats it."""
+        tw = self.timed_waits
+        pct = tw.get("pct", 40)
+        if pct <= 0:
+            return False
+        import zlib
+        return zlib.crc32(f"{tw.get('salt', 0)}:{t.idx}:{t.steps}".encode()) % 100 < pct
 
     def _block(self, t, lock):
         """t cannot proceed until `lock` is released."""
